@@ -220,6 +220,28 @@ SOLO_COMPOSITES = [
     L("allof_prop_enum", {"allOf": [obj({"name": STR, "k": {"type": "string", "enum": ["a", "b"]}}, ["name"]), obj({"k": {"type": "string", "enum": ["b", "c"]}})]}),
     L("allof_prop_obj", {"allOf": [obj({"name": STR, "o": obj({"x": INT})}, ["name"]), obj({"o": obj({"y": STR}, ["y"])})]}),
     L("allof_prop_array", {"allOf": [obj({"name": STR, "v": {"type": "array", "items": INT}}, ["name"]), obj({"v": {"type": "array", "minItems": 1}})]}),
+    # arms found unexercised by a coverage run of the quick tier (instrumented adapter, development aid): untyped enums of one implied type,
+    # string enum listing null, $ref with validation siblings, reference chains, an unsatisfiable subschema mix, not-enum over numbers
+    L("enum_str_with_null", {"type": "string", "enum": ["a", "b", None]}, enf=False, ff=False, sup=False),   # "invalid JSON Schema" by the code's own comment: best effort only
+    # C05 speaks of string enums and TYPED non-string enums: the untyped forms are not in its enforced fragment
+    L("enum_untyped_int", {"enum": [1, 2]}, enf=False),
+    L("enum_untyped_bool", {"enum": [True]}, enf=False),
+    L("enum_untyped_arr", {"enum": [[1], [2, 3]]}, enf=False, sup=False),
+    L("enum_untyped_obj", {"enum": [{"a": 1}, {"a": 2}]}, enf=False, sup=False),
+    L("not_enum_int", {"type": "integer", "not": {"enum": [1, 2]}}, ff=False, enf=True),
+    L("not_enum_untyped_int", {"not": {"enum": [1, 2]}}, ff=False, enf=False, sup=False),
+    # validation keywords next to $ref: draft-07 ignores them (so does the oracle), typify applies them: outside the faithful / enforced fragments
+    L("ref_sibling_required", {"$ref": "#/definitions/XObj", "required": ["n"]}, defs={"XObj": obj({"s": STR, "n": INT}, ["s"])}, enf=False, ff=False, sup=False),
+    L("ref_sibling_maxlen", {"$ref": "#/definitions/XLabel", "maxLength": 3}, defs={"XLabel": {"type": "string"}}, enf=False, ff=False, strish=True, sup=False),
+    L("ref_sibling_props", {"$ref": "#/definitions/XObj", "properties": {"extra": BOOL}}, defs={"XObj": obj({"s": STR, "n": INT}, ["s"])}, enf=False, sup=False),
+    L("ref_chain", {"$ref": "#/definitions/XA"}, defs={"XA": {"$ref": "#/definitions/XB"}, "XB": {"$ref": "#/definitions/XObj"}, "XObj": obj({"s": STR, "n": INT}, ["s"])}, enf=True),
+    L("ref_chain_sibling", {"$ref": "#/definitions/XA", "required": ["n"]}, defs={"XA": {"$ref": "#/definitions/XObj", "description": "hop"}, "XObj": obj({"s": STR, "n": INT}, ["s"])},
+      enf=False, ff=False, sup=False),
+    L("subschema_never", {"allOf": [STR], "oneOf": [INT, BOOL]}, ff=False, enf=False, sup=False),
+    L("allof_anyof_mix", {"allOf": [obj({"a": INT})], "anyOf": [{"required": ["a"]}, {"required": ["b"]}]}, ff=False, enf=False, sup=False),
+    L("enum_empty", {"type": "string", "enum": []}, ff=False, enf=False, sup=False),
+    L("enum_str_bad_value", {"type": "string", "enum": ["a", 1]}, ff=False, enf=False, sup=False),
+    L("pattern_invalid", {"type": "string", "pattern": "("}, ff=False, enf=False, sup=False),
     # one shape per remaining arm of convert_schema_object (type-less validation, $ref with siblings, type lists, boolean member schemas, ...)
     L("obj_notype", {"properties": {"a": INT}, "required": ["a"]}, ff=False, enf=False),
     L("arr_notype", {"items": INT}, ff=False, enf=False),
@@ -432,15 +454,19 @@ UNION_OPERANDS = {
     "obj_p": obj({"p": STR}, ["p"], additionalProperties=False), "obj_q_open": obj({"q": INT}, ["q"]),
     "map_int": {"type": "object", "additionalProperties": INT},
     "ref_obj": {"$ref": "#/definitions/XObj"}, "ref_str": {"$ref": "#/definitions/XLabel"},
+    # operands that reach the other arms of schemas_mutually_exclusive: untyped enums, type lists, allOf / not wrappers
+    "enum_int_untyped": {"enum": [1, 2]}, "str_or_null": {"type": ["string", "null"]}, "int_or_bool": {"type": ["integer", "boolean"]},
+    "allof_str": {"allOf": [{"type": "string"}, {"maxLength": 3}]}, "const_a": {"const": "a"},
 }
-UNION_QUICK = ["null", "int", "str", "enum_ab", "vec_int", "arr13_str", "arr13_int", "tuple_is", "obj_p", "ref_str"]
+UNION_QUICK = ["null", "int", "str", "enum_ab", "vec_int", "arr13_str", "arr13_int", "tuple_is", "obj_p", "ref_str", "enum_int_untyped", "str_or_null"]
 _UNION_DEFS = {"XObj": obj({"s": STR, "n": INT}, ["s"]), "XLabel": {"type": "string"}}
 _JTYPE = {"null": "null", "bool": "boolean", "int": "number", "num": "number", "str": "string", "str_max2": "string", "enum_ab": "string",
           "vec_int": "array", "vec_str": "array", "arr13_str": "array", "arr13_int": "array", "arr2_int": "array", "tuple_is": "array",
-          "obj_p": "object", "obj_q_open": "object", "map_int": "object", "ref_obj": "object", "ref_str": "string"}
+          "obj_p": "object", "obj_q_open": "object", "map_int": "object", "ref_obj": "object", "ref_str": "string",
+          "enum_int_untyped": "number", "str_or_null": "string|null", "int_or_bool": "number|boolean", "allof_str": "string", "const_a": "string"}
 
 
-_MINI = [None, True, 0, 3, 1.5, "", "a", "abc", "0b9f1c1e-2d3a-4b5c-8d7e-6f5a4b3c2d1e", [], [1], [1, 2], [1, 2, 3, 4], ["a"], [1, "a"], ["a", "b"],
+_MINI = [None, True, 0, 1, 2, 3, 1.5, "", "a", "abc", "0b9f1c1e-2d3a-4b5c-8d7e-6f5a4b3c2d1e", [], [1], [1, 2], [1, 2, 3, 4], ["a"], [1, "a"], ["a", "b"],
          {}, {"p": "x"}, {"q": 1}, {"s": "x"}, {"s": "x", "n": 1}, {"s": "x", "q": 1}, {"k": 1}]
 
 
@@ -461,7 +487,7 @@ def union_family(tier):
                     continue
                 disjoint = _JTYPE[a] != _JTYPE[b]
                 overlap = _overlap(UNION_OPERANDS[a], UNION_OPERANDS[b])
-                enf_ops = all(x not in ("map_int", "obj_q_open", "ref_obj", "arr13_str", "arr13_int") for x in (a, b))
+                enf_ops = all(x not in ("map_int", "obj_q_open", "ref_obj", "arr13_str", "arr13_int", "const_a") for x in (a, b))
                 sh = L("%s[%s,%s]" % (comb, a, b), {comb: [copy.deepcopy(UNION_OPERANDS[a]), copy.deepcopy(UNION_OPERANDS[b])]},
                        ff=True, enf=enf_ops and (comb == "anyOf" or not overlap), fam=True,
                        defs={k: v for k, v in _UNION_DEFS.items() if ("ref_obj" in (a, b) and k == "XObj") or ("ref_str" in (a, b) and k == "XLabel")})
